@@ -18,8 +18,8 @@ import (
 )
 
 const (
-	nThreads = 3
-	nCalls   = 2
+	maxThreads = 4
+	nCalls     = 2
 )
 
 // 100 ns ticks between 1582-10-15 and 1970-01-01 (RFC 4122), written out independently of gocql
@@ -30,9 +30,12 @@ const gregorianToUnix100ns = 0x01B21DD213814000
 var starts = []uint32{7, 0x3FFD, 0xFFFD, 0xFFFFFFFD}
 
 type gen struct {
-	name string
+	name     string
+	nThreads int
 	// which generator thread i uses for its k-th call: 'F' UUIDFromTime(t), 'N' TimeUUID()
-	plan [nThreads][nCalls]byte
+	plan [maxThreads][nCalls]byte
+	// preemption bound per tier (-1: all interleavings)
+	p [2]int
 }
 
 func (g *gen) body() {
@@ -44,8 +47,9 @@ func (g *gen) body() {
 	// (inside the same 100 ns tick), TimeUUID reads the virtual clock itself
 	now := vs.Now()
 	t := now.Add(57 * time.Nanosecond)
-	var out [nThreads][nCalls]gocql.UUID
-	done := make(chan int, nThreads)
+	nThreads := g.nThreads
+	var out [maxThreads][nCalls]gocql.UUID
+	done := make(chan int, maxThreads)
 	for i := 0; i < nThreads; i++ {
 		i := i
 		vs.GoNamed(fmt.Sprintf("gen%d", i), func() {
@@ -93,7 +97,7 @@ func (g *gen) body() {
 			sig += fmt.Sprintf("%d", (uint32(u[8]&0x3F)<<8|uint32(u[9])-start)&0x3FFF)
 		}
 	}
-	if got := gocql.VerifC19ClockSeq() - start; got != nThreads*nCalls {
+	if got := gocql.VerifC19ClockSeq() - start; got != uint32(nThreads*nCalls) {
 		// not demanded by the property as such, but a lost update here is exactly what makes two UUIDs collide
 		vs.Failf("c19:concurrent:clock-sequence-lost-update", "clock sequence advanced by %d after %d generated UUIDs (start %#x)", got, nThreads*nCalls, start)
 	}
@@ -103,21 +107,22 @@ func (g *gen) body() {
 
 func main() {
 	gens := []*gen{
-		{name: "UUIDFromTime-same-instant-3x2", plan: [nThreads][nCalls]byte{{'F', 'F'}, {'F', 'F'}, {'F', 'F'}}},
-		{name: "TimeUUID-frozen-clock-3x2", plan: [nThreads][nCalls]byte{{'N', 'N'}, {'N', 'N'}, {'N', 'N'}}},
-		{name: "mixed-TimeUUID-UUIDFromTime-3x2", plan: [nThreads][nCalls]byte{{'F', 'N'}, {'N', 'F'}, {'N', 'N'}}},
+		{name: "UUIDFromTime-same-instant-3x2", nThreads: 3, plan: [maxThreads][nCalls]byte{{'F', 'F'}, {'F', 'F'}, {'F', 'F'}}, p: [2]int{-1, -1}},
+		{name: "TimeUUID-frozen-clock-3x2", nThreads: 3, plan: [maxThreads][nCalls]byte{{'N', 'N'}, {'N', 'N'}, {'N', 'N'}}, p: [2]int{-1, -1}},
+		{name: "mixed-TimeUUID-UUIDFromTime-3x2", nThreads: 3, plan: [maxThreads][nCalls]byte{{'F', 'N'}, {'N', 'F'}, {'N', 'N'}}, p: [2]int{-1, -1}},
+		// 4 threads: preemption-bounded in the quick tier, all interleavings in the thorough tier
+		{name: "mixed-TimeUUID-UUIDFromTime-4x2", nThreads: 4, plan: [maxThreads][nCalls]byte{{'F', 'N'}, {'N', 'F'}, {'N', 'N'}, {'F', 'F'}}, p: [2]int{2, -1}},
 	}
 	var defs []mcreport.Def
 	for _, g := range gens {
 		g := g
-		all := vs.Bounds{P: -1, D: -1, F: -1}
-		defs = append(defs, mcreport.Def{Name: g.name, Quick: all, Thorough: all, Build: func() *vs.Scenario {
+		defs = append(defs, mcreport.Def{Name: g.name, Quick: vs.Bounds{P: g.p[0], D: -1, F: -1}, Thorough: vs.Bounds{P: g.p[1], D: -1, F: -1}, Build: func() *vs.Scenario {
 			return &vs.Scenario{Name: g.name, Cfg: vs.Config{MaxSteps: 5000}, Body: g.body}
 		}})
 	}
 	mcreport.Main("C19", "exploration",
-		"controlled-scheduler part: ALL interleavings (preemption bounding with P unbounded, happens-before state caching) of 3 threads x 2 calls generating time-UUIDs for the same instant on the instrumented real uuid.go (every sync/atomic operation is a scheduling point): UUIDFromTime(t) with one t, TimeUUID() under the frozen virtual clock, and a mix; x 4 start values of the process-wide clock sequence (free choice: small, 14-bit wrap inside the run, 16-bit and 32-bit wrap inside the run); oracle: the 6 UUIDs pairwise distinct, version 1, RFC 4122 variant, timestamp field and Time() = the instant to 100 ns; distinct = distinct assignments of clock values to (thread, call)",
-		[]string{"3 generator threads x 2 calls; one process-wide clock sequence, reset to the chosen start per execution; virtual clock frozen (no timer exists, so it never advances)",
+		"controlled-scheduler part: ALL interleavings (preemption bounding with P unbounded, happens-before state caching) of 3 threads x 2 calls (and 4 x 2: preemption bound 2 in the quick tier, unbounded in the thorough tier) generating time-UUIDs for the same instant on the instrumented real uuid.go (every sync/atomic operation is a scheduling point): UUIDFromTime(t) with one t, TimeUUID() under the frozen virtual clock, and a mix; x 4 start values of the process-wide clock sequence (free choice: small, 14-bit wrap inside the run, 16-bit and 32-bit wrap inside the run); oracle: the 6 (8) UUIDs pairwise distinct, version 1, RFC 4122 variant, timestamp field and Time() = the instant to 100 ns; distinct = distinct assignments of clock values to (thread, call)",
+		[]string{"3 (4) generator threads x 2 calls; one process-wide clock sequence, reset to the chosen start per execution; virtual clock frozen (no timer exists, so it never advances)",
 			"a NON-atomic read-modify-write of the clock sequence has no scheduling point and is outside this part (native -race pass); a 14-bit wrap needs 16 384 UUIDs inside one 100 ns tick and is out of bounds"},
 		defs, 60*time.Second, 5*time.Minute, nil)
 }
